@@ -30,8 +30,11 @@
                                             restriction with the source as sender.
 
     Assumed / abstracted (trusted, exercised by the correspondence harness):
-      - one deposit denom; the immediate minimum deposits and the gov minimum deposit are amounts
-        of it (0 = the empty coins = feature switched off);
+      - two deposit denoms A (the bond denom, in which all other transfers are made) and B; a
+        coin set is a pair (amount of A, amount of B); the immediate minimum deposits and the gov
+        minimum deposit are such pairs ((0,0) = the empty coins = feature switched off; a
+        component 0 = that denom is not part of the coin set); "deposit covers the minimum"
+        (Coins.SafeSub has no negative / IsAllGTE) is componentwise <=;
       - the tally: a single validator whose delegator casts the only votes, so a proposal passes
         iff its last vote is Yes ([p_vote]); deposits are always refunded at the end of the voting
         or deposit period (burn flags off), a cancellation keeps floor(ratio 1/2) of each
@@ -47,8 +50,15 @@ From Coq Require Import ZArith NArith List Bool.
 Import ListNotations.
 Open Scope Z_scope.
 
+(** Coin sets over the two deposit denoms. *)
+Definition amt2 := (Z * Z)%type.
+Definition le2 (x y : amt2) : bool := (fst x <=? fst y) && (snd x <=? snd y).
+Definition zero2 (x : amt2) : bool := (fst x =? 0) && (snd x =? 0).
+Definition nonneg2 (x : amt2) : bool := (0 <=? fst x) && (0 <=? snd x).
+Definition add2 (x y : amt2) : amt2 := (fst x + fst y, snd x + snd y).
+
 Record config := { c_unsanct : list N;      (* addresses that cannot be sanctioned *)
-                   c_gov_min : Z }.         (* gov MinDeposit (enters the voting period) *)
+                   c_gov_min : amt2 }.      (* gov MinDeposit (enters the voting period) *)
 
 Definition memN (a : N) (l : list N) : bool := existsb (N.eqb a) l.
 
@@ -58,13 +68,13 @@ Definition unsanct (c : config) (a : N) : bool := memN a (c_unsanct c).
 Inductive msg :=
 | MSanction (addrs : list N)
 | MUnsanction (addrs : list N)
-| MParams (smin umin : Z).
+| MParams (smin umin : amt2).
 
 Inductive pstatus := PDeposit | PVoting.
 
 Record proposal := {
   p_id : N; p_proposer : N; p_msgs : list msg;
-  p_deps : list (N * Z);        (* depositor |-> total deposited (one Deposit record each) *)
+  p_deps : list (N * amt2);     (* depositor |-> total deposited (one Deposit record each) *)
   p_status : pstatus;
   p_dep_end : Z;                (* DepositEndTime *)
   p_vote_end : Z;               (* VotingEndTime, meaningful when PVoting *)
@@ -77,33 +87,34 @@ Definition entry := (N * N * bool)%type.
 Record state := {
   perm : list N;                (* permanently sanctioned addresses *)
   temps : list entry;
-  smin : Z; umin : Z;           (* immediate sanction / unsanction minimum deposits, 0 = off *)
+  smin : amt2; umin : amt2;     (* immediate sanction / unsanction minimum deposits, (0,0) = off *)
   props : list proposal;        (* proposals in deposit or voting period, ascending id *)
   next_id : N;
   now : Z;                      (* block time of the current block *)
-  bal : N -> Z }.
+  bal : N -> Z;                 (* balances in denom A *)
+  balb : N -> Z }.              (* balances in denom B *)
 
 Definition set_perm (s : state) (x : list N) : state :=
   {| perm := x; temps := temps s; smin := smin s; umin := umin s; props := props s;
-     next_id := next_id s; now := now s; bal := bal s |}.
+     next_id := next_id s; now := now s; bal := bal s; balb := balb s |}.
 Definition set_temps (s : state) (x : list entry) : state :=
   {| perm := perm s; temps := x; smin := smin s; umin := umin s; props := props s;
-     next_id := next_id s; now := now s; bal := bal s |}.
-Definition set_params (s : state) (a b : Z) : state :=
+     next_id := next_id s; now := now s; bal := bal s; balb := balb s |}.
+Definition set_params (s : state) (a b : amt2) : state :=
   {| perm := perm s; temps := temps s; smin := a; umin := b; props := props s;
-     next_id := next_id s; now := now s; bal := bal s |}.
+     next_id := next_id s; now := now s; bal := bal s; balb := balb s |}.
 Definition set_props (s : state) (x : list proposal) : state :=
   {| perm := perm s; temps := temps s; smin := smin s; umin := umin s; props := x;
-     next_id := next_id s; now := now s; bal := bal s |}.
+     next_id := next_id s; now := now s; bal := bal s; balb := balb s |}.
 Definition set_next (s : state) (x : N) : state :=
   {| perm := perm s; temps := temps s; smin := smin s; umin := umin s; props := props s;
-     next_id := x; now := now s; bal := bal s |}.
+     next_id := x; now := now s; bal := bal s; balb := balb s |}.
 Definition set_now (s : state) (x : Z) : state :=
   {| perm := perm s; temps := temps s; smin := smin s; umin := umin s; props := props s;
-     next_id := next_id s; now := x; bal := bal s |}.
-Definition set_bal (s : state) (x : N -> Z) : state :=
+     next_id := next_id s; now := x; bal := bal s; balb := balb s |}.
+Definition set_bal (s : state) (x y : N -> Z) : state :=
   {| perm := perm s; temps := temps s; smin := smin s; umin := umin s; props := props s;
-     next_id := next_id s; now := now s; bal := x |}.
+     next_id := next_id s; now := now s; bal := x; balb := y |}.
 
 (** ** Sanction keeper *)
 
@@ -167,7 +178,7 @@ Definition exec_msg (c : config) (s : state) (m : msg) : option state :=
   match m with
   | MSanction addrs => sanction_addrs c s addrs
   | MUnsanction addrs => Some (unsanction_addrs s addrs)
-  | MParams a b => if (0 <=? a) && (0 <=? b) then Some (set_params s a b) else None
+  | MParams a b => if nonneg2 a && nonneg2 b then Some (set_params s a b) else None
   end.
 
 Fixpoint exec_msgs (c : config) (s : state) (ms : list msg) : option state :=
@@ -181,7 +192,7 @@ Fixpoint exec_msgs (c : config) (s : state) (ms : list msg) : option state :=
 
 (** ** Governance *)
 
-Definition total_deposit (pr : proposal) : Z := fold_left (fun acc d => acc + snd d) (p_deps pr) 0.
+Definition total_deposit (pr : proposal) : amt2 := fold_left (fun acc d => add2 acc (snd d)) (p_deps pr) (0, 0).
 
 Fixpoint get_prop (pid : N) (l : list proposal) : option proposal :=
   match l with
@@ -206,10 +217,10 @@ Definition hook_msg (c : config) (s : state) (pr : proposal) (acc : option (list
   | Some l =>
       match m with
       | MSanction addrs =>
-          if negb (smin s =? 0) && (smin s <=? total_deposit pr)
+          if negb (zero2 (smin s)) && le2 (smin s) (total_deposit pr)
           then add_temps c true (p_id pr) addrs l else Some l
       | MUnsanction addrs =>
-          if negb (umin s =? 0) && (umin s <=? total_deposit pr)
+          if negb (zero2 (umin s)) && le2 (umin s) (total_deposit pr)
           then add_temps c false (p_id pr) addrs l else Some l
       | MParams _ _ => Some l
       end
@@ -225,22 +236,22 @@ Definition run_hook (c : config) (s : state) (pr : proposal) : option state :=
     restriction, in either order: both failures abort the message). *)
 Definition upd (f : N -> Z) (a : N) (v : Z) : N -> Z := fun x => if N.eqb x a then v else f x.
 
-Definition debit (c : config) (s : state) (a : N) (amt : Z) : option state :=
-  if amt <? 0 then None
-  else if bal s a <? amt then None
+Definition debit (c : config) (s : state) (a : N) (amt : amt2) : option state :=
+  if negb (nonneg2 amt) then None
+  else if negb (le2 amt (bal s a, balb s a)) then None
   else if is_sanctioned c s a then None
-  else Some (set_bal s (upd (bal s) a (bal s a - amt))).
+  else Some (set_bal s (upd (bal s) a (bal s a - fst amt)) (upd (balb s) a (balb s a - snd amt))).
 
-Definition credit (s : state) (a : N) (amt : Z) : state :=
-  set_bal s (upd (bal s) a (bal s a + amt)).
+Definition credit (s : state) (a : N) (amt : amt2) : state :=
+  set_bal s (upd (bal s) a (bal s a + fst amt)) (upd (balb s) a (balb s a + snd amt)).
 
-Fixpoint add_dep (who : N) (amt : Z) (l : list (N * Z)) : list (N * Z) :=
+Fixpoint add_dep (who : N) (amt : amt2) (l : list (N * amt2)) : list (N * amt2) :=
   match l with
   | [] => [(who, amt)]
-  | (w, v) :: r => if N.eqb w who then (w, v + amt) :: r else (w, v) :: add_dep who amt r
+  | (w, v) :: r => if N.eqb w who then (w, add2 v amt) :: r else (w, v) :: add_dep who amt r
   end.
 
-Definition with_deposit (pr : proposal) (deps : list (N * Z)) (st : pstatus) (vend : Z) : proposal :=
+Definition with_deposit (pr : proposal) (deps : list (N * amt2)) (st : pstatus) (vend : Z) : proposal :=
   {| p_id := p_id pr; p_proposer := p_proposer pr; p_msgs := p_msgs pr; p_deps := deps;
      p_status := st; p_dep_end := p_dep_end pr; p_vote_end := vend; p_vote := p_vote pr |}.
 
@@ -249,7 +260,7 @@ Definition with_vote (pr : proposal) (v : option bool) : proposal :=
      p_status := p_status pr; p_dep_end := p_dep_end pr; p_vote_end := p_vote_end pr; p_vote := v |}.
 
 (** keeper.AddDeposit: [vp] is the voting period in the gov params at this moment. *)
-Definition add_deposit (c : config) (s : state) (pid who : N) (amt vp : Z) : option state :=
+Definition add_deposit (c : config) (s : state) (pid who : N) (amt : amt2) (vp : Z) : option state :=
   match get_prop pid (props s) with
   | None => None
   | Some pr =>
@@ -260,7 +271,7 @@ Definition add_deposit (c : config) (s : state) (pid who : N) (amt vp : Z) : opt
           let pr1 := with_deposit pr deps (p_status pr) (p_vote_end pr) in
           let pr2 :=
             match p_status pr with
-            | PDeposit => if c_gov_min c <=? total_deposit pr1
+            | PDeposit => if le2 (c_gov_min c) (total_deposit pr1)
                           then with_deposit pr deps PVoting (now s + vp) else pr1
             | PVoting => pr1
             end in
@@ -270,7 +281,7 @@ Definition add_deposit (c : config) (s : state) (pid who : N) (amt vp : Z) : opt
   end.
 
 (** MsgSubmitProposal: [dp]/[vp] are the deposit and voting periods in the gov params. *)
-Definition submit (c : config) (s : state) (proposer : N) (ms : list msg) (dep dp vp : Z)
+Definition submit (c : config) (s : state) (proposer : N) (ms : list msg) (dep : amt2) (dp vp : Z)
   : option state :=
   let pid := next_id s in
   let pr := {| p_id := pid; p_proposer := proposer; p_msgs := ms; p_deps := [];
@@ -290,11 +301,11 @@ Definition vote (s : state) (pid : N) (yes : bool) : option state :=
   | None => None
   end.
 
-Definition refund_all (s : state) (deps : list (N * Z)) : state :=
+Definition refund_all (s : state) (deps : list (N * amt2)) : state :=
   fold_left (fun acc d => credit acc (fst d) (snd d)) deps s.
 
 (** keeper.CancelProposal: proposer only, not after the voting end time; each depositor gets
-    back its total minus floor(total/2); the proposal is deleted.  No hook is called, so the
+    back, per coin, its total minus floor(total/2); the proposal is deleted.  No hook is called, so the
     sanction module is never told. *)
 Definition cancel (s : state) (who pid : N) : option state :=
   match get_prop pid (props s) with
@@ -303,7 +314,7 @@ Definition cancel (s : state) (who pid : N) : option state :=
       if negb (N.eqb (p_proposer pr) who) then None
       else if match p_status pr with PVoting => p_vote_end pr <? now s | PDeposit => false end then None
       else
-        let s1 := refund_all s (map (fun d => (fst d, snd d - snd d / 2)) (p_deps pr)) in
+        let s1 := refund_all s (map (fun d => (fst d, (fst (snd d) - fst (snd d) / 2, snd (snd d) - snd (snd d) / 2))) (p_deps pr)) in
         Some (set_props s1 (remove_prop pid (props s1)))
   end.
 
@@ -361,8 +372,8 @@ Definition sum_amts (l : list (N * Z)) : Z := fold_left (fun acc x => acc + snd 
 
 Definition send (c : config) (s : state) (from to : N) (amt : Z) : option state :=
   if amt <=? 0 then None
-  else match debit c s from amt with
-       | Some s1 => Some (credit s1 to amt)
+  else match debit c s from (amt, 0) with
+       | Some s1 => Some (credit s1 to (amt, 0))
        | None => None
        end.
 
@@ -370,8 +381,8 @@ Definition multi_send (c : config) (s : state) (from : N) (outs : list (N * Z)) 
   match outs with
   | [] => None
   | _ => if negb (all_pos outs) then None
-         else match debit c s from (sum_amts outs) with
-              | Some s1 => Some (refund_all s1 outs)
+         else match debit c s from (sum_amts outs, 0) with
+              | Some s1 => Some (refund_all s1 (map (fun o => (fst o, (snd o, 0))) outs))
               | None => None
               end
   end.
@@ -379,7 +390,7 @@ Definition multi_send (c : config) (s : state) (from : N) (outs : list (N * Z)) 
 Fixpoint debit_all (c : config) (s : state) (ins : list (N * Z)) : option state :=
   match ins with
   | [] => Some s
-  | (a, v) :: r => match debit c s a v with
+  | (a, v) :: r => match debit c s a (v, 0) with
                    | Some s1 => debit_all c s1 r
                    | None => None
                    end
@@ -390,7 +401,7 @@ Definition many_to_one (c : config) (s : state) (ins : list (N * Z)) (to : N) : 
   | [] => None
   | _ => if negb (all_pos ins) then None
          else match debit_all c s ins with
-              | Some s1 => Some (credit s1 to (sum_amts ins))
+              | Some s1 => Some (credit s1 to (sum_amts ins, 0))
               | None => None
               end
   end.
@@ -398,12 +409,12 @@ Definition many_to_one (c : config) (s : state) (ins : list (N * Z)) (to : N) : 
 (** Delegation, fee payment and any other account-to-module transfer: a debit whose
     counterpart (a module pool) is not tracked. *)
 Definition to_module (c : config) (s : state) (from : N) (amt : Z) : option state :=
-  if amt <=? 0 then None else debit c s from amt.
+  if amt <=? 0 then None else debit c s from (amt, 0).
 
 (** ** Operations *)
 Inductive op :=
-| OSubmit (proposer : N) (ms : list msg) (dep dp vp : Z)
-| ODeposit (who pid : N) (amt vp : Z)
+| OSubmit (proposer : N) (ms : list msg) (dep : amt2) (dp vp : Z)
+| ODeposit (who pid : N) (amt : amt2) (vp : Z)
 | OVote (pid : N) (yes : bool)
 | OCancel (who pid : N)
 | ONewBlock (t : Z)                       (* EndBlocker at [now], then the next block at time t *)
@@ -417,8 +428,8 @@ Inductive op :=
 
 Definition step_opt (c : config) (s : state) (o : op) : option state :=
   match o with
-  | OSubmit who ms dep dp vp => if dep <? 0 then None else submit c s who ms dep dp vp
-  | ODeposit who pid amt vp => if amt <=? 0 then None else add_deposit c s pid who amt vp
+  | OSubmit who ms dep dp vp => if negb (nonneg2 dep) then None else submit c s who ms dep dp vp
+  | ODeposit who pid amt vp => if negb (nonneg2 amt) || zero2 amt then None else add_deposit c s pid who amt vp
   | OVote pid yes => vote s pid yes
   | OCancel who pid => cancel s who pid
   | ONewBlock t => Some (set_now (end_block c s) t)
@@ -428,7 +439,7 @@ Definition step_opt (c : config) (s : state) (o : op) : option state :=
   | OManyToOne ins to => many_to_one c s ins to
   | ODelegate from amt => to_module c s from amt
   | OPayFee from amt => to_module c s from amt
-  | OFund to amt => if amt <? 0 then None else Some (credit s to amt)
+  | OFund to amt => if amt <? 0 then None else Some (credit s to (amt, 0))
   end.
 
 (** A rejected operation leaves the state as it was. *)
@@ -438,9 +449,9 @@ Definition step (c : config) (s : state) (o : op) : state * bool :=
   | None => (s, false)
   end.
 
-Definition init (sm um : Z) (first_id : N) (t0 : Z) (b : N -> Z) : state :=
+Definition init (sm um : amt2) (first_id : N) (t0 : Z) (b bb : N -> Z) : state :=
   {| perm := []; temps := []; smin := sm; umin := um; props := []; next_id := first_id;
-     now := t0; bal := b |}.
+     now := t0; bal := b; balb := bb |}.
 
 Definition run (c : config) (s0 : state) (ops : list op) : state :=
   fold_left (fun s o => fst (step c s o)) ops s0.
